@@ -97,25 +97,15 @@ type progCache struct {
 	sums   map[*Func]*Summary
 }
 
-var (
-	cacheMu    sync.Mutex
-	caches     = map[*Prog]*progCache{}
-	cacheOrder []*Prog
-)
+// The caches live with their program (Prog.Aux), so that they are released
+// together with it: the sensitivity sweep loads hundreds of variants.
+var cacheMu sync.Mutex
 
 // cacheOf returns the cache of p; the caller holds cacheMu.
 func cacheOf(p *Prog) *progCache {
-	if c, ok := caches[p]; ok {
-		return c
-	}
-	c := &progCache{bounds: map[*Func]*Bounds{}, sums: map[*Func]*Summary{}}
-	caches[p] = c
-	cacheOrder = append(cacheOrder, p)
-	for len(cacheOrder) > 16 {
-		delete(caches, cacheOrder[0])
-		cacheOrder = cacheOrder[1:]
-	}
-	return c
+	return p.Aux("kit.boundsCache", func() any {
+		return &progCache{bounds: map[*Func]*Bounds{}, sums: map[*Func]*Summary{}}
+	}).(*progCache)
 }
 
 func summaryGet(cf *Func) (*Summary, bool) {
@@ -2109,19 +2099,18 @@ func AnalyseBoundsWith(p *Prog, f *Func, sums func(*Func) *Summary) *Bounds {
 
 // ResetBoundsCache drops cached analyses (a new program was loaded).
 func ResetBoundsCache() {
-	cacheMu.Lock()
-	defer cacheMu.Unlock()
-	caches = map[*Prog]*progCache{}
-	cacheOrder = nil
 }
 
-var roCache sync.Map // *Func -> bool
+// read-only verdicts are cached per program (see Prog.Aux)
+func roCacheOf(f *Func) *sync.Map {
+	return f.Prog.Aux("kit.roCache", func() any { return &sync.Map{} }).(*sync.Map)
+}
 
 // readOnlyFunc: f stores nothing through its receiver or parameters (no
 // assignment rooted in them, parameters are only handed to read-only module
 // functions or to len/cap), and does not write package-level variables.
 func readOnlyFunc(p *Prog, f *Func, depth int) bool {
-	if v, ok := roCache.Load(f); ok {
+	if v, ok := roCacheOf(f).Load(f); ok {
 		return v.(bool)
 	}
 	if depth > 3 || f.Body == nil {
@@ -2239,7 +2228,7 @@ func readOnlyFunc(p *Prog, f *Func, depth int) bool {
 		}
 		return true
 	})
-	roCache.Store(f, ok)
+	roCacheOf(f).Store(f, ok)
 	return ok
 }
 
